@@ -287,6 +287,12 @@ Proof.
   pose proof (regs_of_length_lt _ _ Hin Hn). lia.
 Qed.
 
+Lemma hw_enable_sync s a sz c s1 h r : hw_enable s a sz c = Ok (s1, h, r) -> s1 = sync_all s h.
+Proof.
+  unfold hw_enable. destruct (free_register _) as [r0|]; [|discriminate].
+  intros H. inversion H. reflexivity.
+Qed.
+
 Lemma inv_enable_in_place s d w t s1 h r :
   Inv s -> wps s = d ++ w :: t -> w_reg w = None ->
   hw_enable s (w_addr w) (w_size w) (w_cond w) = Ok (s1, h, r) ->
@@ -350,8 +356,7 @@ Proof.
     destruct (enable_succeeds s w (w_addr w) (w_size w) (w_cond w) I Hin Hn Hl) as [s1 [h [r He]]].
     rewrite He.
     pose proof (inv_enable_in_place _ _ _ _ _ _ _ I Hw Hn He) as I2.
-    assert (Es1 : s1 = sync_all s h).
-    { unfold hw_enable in He. destruct (free_register _); [|discriminate]. injection He as <- _ _. reflexivity. }
+    assert (Es1 : s1 = sync_all s h) by (eapply hw_enable_sync; exact He).
     set (s2 := with_wps s1 (set_wp_at (wps s1) (length d) (set_reg w (Some r))) (Some h) (wp_counter s1)) in *.
     assert (Hw2 : wps s2 = (d ++ [set_reg w (Some r)]) ++ t).
     { unfold s2. cbn [wps with_wps]. rewrite Es1. cbn [wps sync_all]. rewrite Hw, set_wp_at_exact, <- app_assoc. reflexivity. }
@@ -388,8 +393,7 @@ Qed.
 Lemma globals_length_le l : (length (globals l) <= length l)%nat.
 Proof. unfold globals. induction l as [|x t IH]; cbn; [lia|]. destruct (negb (scoped x)); cbn; lia. Qed.
 
-Lemma Forall2_map_l {A B C} (R : B -> C -> Prop) (f : A -> B) l l' :
-  Forall2 R (map f l) l' -> Forall2 (fun a c => R (f a) c) l l'.
+Lemma Forall2_rearmed_unreg l l' : Forall2 rearmed (map unreg l) l' -> Forall2 rearmed l l'.
 Proof.
   revert l'; induction l as [|x t IH]; intros l' H; inversion H; subst; constructor; auto.
 Qed.
@@ -412,7 +416,593 @@ Proof.
   - cbn [wps s0]. rewrite map_length. exact Hl.
   - exists s'. unfold refresh. cbn [wps s0]. split; [exact R|]. split; [exact I'|].
     split; [exact T|]. split; [exact C1|]. split; [exact C2|]. split; [exact C3|]. split.
-    + cbn [app] in W. rewrite W. apply Forall2_map_l in F2.
-      eapply Forall2_impl; [|exact F2]. intros a b Hr. exact Hr.
+    + cbn [app] in W. rewrite W. apply Forall2_rearmed_unreg, F2.
     + intros ->. apply L. reflexivity.
+Qed.
+
+(* ------------------------------------------------------------------ *)
+(* restart                                                             *)
+Definition all_armed (s : st) : Prop := forall w, In w (wps s) -> w_reg w <> None.
+
+Lemma globals_in l w : In w (globals l) <-> In w l /\ scoped w = false.
+Proof. unfold globals. rewrite filter_In, negb_true_iff. reflexivity. Qed.
+
+Lemma restart_spec s t s' errs :
+  Inv s -> restart s t = Ok (s', errs) ->
+  errs = [] /\ Inv s' /\ map fst (threads s') = [t] /\ wp_counter s' = wp_counter s /\
+  bp_counter s' = bp_counter s /\ comps s' = [] /\ Forall2 rearmed (globals (wps s)) (wps s') /\
+  (globals (wps s) = [] -> last_seen s' = None) /\ all_armed s.
+Proof.
+  intros I. unfold restart.
+  destruct (clear_local_disable_global s) as [s1| | |] eqn:Ec; cbn [bind]; try discriminate.
+  destruct (clear_spec _ _ Ec) as [W [C1 [C2 [L A]]]].
+  unfold new_process. rewrite W, L, C1, C2.
+  destruct (refresh_fresh t (globals (wps s)) (wp_counter s) (bp_counter s)) as [s2 [R [I2 [T [D1 [D2 [D3 [F2 L2]]]]]]]].
+  - pose proof (i_wps _ I) as F. rewrite Forall_forall in *. intros w Hw. apply F. apply globals_in in Hw. tauto.
+  - intros w Hw. apply globals_in in Hw. tauto.
+  - pose proof (globals_length_le (wps s)). pose proof (wps_le4 s I). rewrite (regs_of_length_all _ A) in *. lia.
+  - rewrite R. intros H; injection H as <- <-.
+    split; [reflexivity|]. split; [exact I2|]. split; [exact T|]. split; [exact D1|]. split; [exact D2|].
+    split; [exact D3|]. split; [exact F2|]. split; [exact L2 | exact A].
+Qed.
+
+Lemma restart_total s t : Inv s -> all_armed s -> exists s', restart s t = Ok (s', []).
+Proof.
+  intros I A. unfold restart, clear_local_disable_global.
+  destruct (clear_loop_total (length (wps s)) [] (wps s) s eq_refl eq_refl A) as [s1 E].
+  cbn [length] in E. rewrite E. cbn [bind].
+  destruct (clear_spec s (set_last_seen s1 None)) as [W [C1 [C2 [L _]]]].
+  { unfold clear_local_disable_global. rewrite E. reflexivity. }
+  unfold new_process. rewrite W, L, C1, C2.
+  destruct (refresh_fresh t (globals (wps s)) (wp_counter s) (bp_counter s)) as [s2 [R _]].
+  - pose proof (i_wps _ I) as F. rewrite Forall_forall in *. intros w Hw. apply F. apply globals_in in Hw. tauto.
+  - intros w Hw. apply globals_in in Hw. tauto.
+  - pose proof (globals_length_le (wps s)). pose proof (wps_le4 s I). rewrite (regs_of_length_all _ A) in *. lia.
+  - exists s2. exact R.
+Qed.
+
+(* the exit-then-start path ends in the same state *)
+Lemma clear_loop_dead_shape fuel : forall pre rest s,
+  wps s = pre ++ rest -> length rest = fuel ->
+  exists s', clear_loop_dead fuel (length pre) s = Ok s' /\ wps s' = pre ++ globals rest /\
+    threads s' = threads s /\ wp_counter s' = wp_counter s /\ bp_counter s' = bp_counter s.
+Proof.
+  induction fuel as [|f IH]; intros pre rest s Hw Hl; cbn [clear_loop_dead].
+  - destruct rest; [|discriminate]. exists s. rewrite Hw. repeat split.
+  - destruct rest as [|w rest']; [discriminate|]. injection Hl as Hl.
+    rewrite Hw, nth_error_app_exact. unfold globals; cbn [filter]. destruct (scoped w); cbn [negb].
+    + destruct (IH pre rest' (drop_at s (length pre))) as [s' [E [W R]]]; [|exact Hl|].
+      * unfold drop_at; cbn [wps with_wps]. rewrite Hw. apply drop_app_exact.
+      * exists s'. split; [exact E|]. split; [exact W|]. exact R.
+    + destruct (IH (pre ++ [w]) rest' s) as [s' [E [W R]]]; [rewrite Hw, <- app_assoc; reflexivity | exact Hl|].
+      rewrite app_length in E. cbn [length] in E. replace (length pre + 1)%nat with (S (length pre)) in E by lia.
+      exists s'. split; [exact E|]. split; [rewrite W, <- app_assoc; reflexivity | exact R].
+Qed.
+
+Lemma refresh_loop_errs todo : forall j s errs s' e',
+  refresh_loop todo j s errs = Ok (s', e') -> exists x, e' = errs ++ x.
+Proof.
+  induction todo as [|w t IH]; intros j s errs s' e'; cbn [refresh_loop].
+  - intros H; injection H as _ <-. exists []. rewrite app_nil_r. reflexivity.
+  - destruct (scoped w); [discriminate|].
+    destruct (hw_enable s (w_addr w) (w_size w) (w_cond w)) as [[[s1 h] r]|e| |]; try discriminate.
+    + apply IH.
+    + intros H. apply IH in H. destruct H as [x ->]. exists (e :: x). rewrite <- app_assoc. reflexivity.
+Qed.
+
+Lemma refresh_loop_irrel todo : forall th d ra rb ls wc bc cs s',
+  length ra = length todo -> length rb = length todo ->
+  refresh_loop (map unreg todo) (length d) (mk_st th (d ++ rb) ls wc bc cs) [] = Ok (s', []) ->
+  refresh_loop todo (length d) (mk_st th (d ++ ra) ls wc bc cs) [] = Ok (s', []).
+Proof.
+  induction todo as [|w t IH]; intros th d ra rb ls wc bc cs s' La Lb; cbn [refresh_loop map].
+  - destruct ra; [|discriminate]. destruct rb; [|discriminate]. intros H; exact H.
+  - destruct ra as [|a ra']; [discriminate|]. destruct rb as [|b rb']; [discriminate|].
+    injection La as La. injection Lb as Lb.
+    change (scoped (unreg w)) with (scoped w). destruct (scoped w); [discriminate|].
+    change (w_addr (unreg w)) with (w_addr w). change (w_size (unreg w)) with (w_size w).
+    change (w_cond (unreg w)) with (w_cond w).
+    unfold hw_enable. change (main_hw (mk_st th (d ++ b :: rb') ls wc bc cs)) with (main_hw (mk_st th (d ++ a :: ra') ls wc bc cs)).
+    destruct (free_register (h_dr7 (main_hw (mk_st th (d ++ a :: ra') ls wc bc cs)))) as [r|].
+    + cbn [sync_all with_wps threads wps last_seen wp_counter bp_counter comps].
+      rewrite !set_wp_at_exact.
+      change (set_reg (unreg w) (Some r)) with (set_reg w (Some r)).
+      replace (S (length d)) with (length (d ++ [set_reg w (Some r)])) by (rewrite app_length; cbn; lia).
+      replace (d ++ set_reg w (Some r) :: rb') with ((d ++ [set_reg w (Some r)]) ++ rb') by (rewrite <- app_assoc; reflexivity).
+      replace (d ++ set_reg w (Some r) :: ra') with ((d ++ [set_reg w (Some r)]) ++ ra') by (rewrite <- app_assoc; reflexivity).
+      apply IH; assumption.
+    + intros H. apply refresh_loop_errs in H. destruct H as [x H]. discriminate.
+Qed.
+
+Lemma exit_then_restart_eq s t : Inv s -> all_armed s -> exit_then_restart s t = restart s t.
+Proof.
+  intros I A. destruct (restart_total s t I A) as [s' R]. rewrite R.
+  unfold restart in R. destruct (clear_local_disable_global s) as [s1| | |] eqn:Ec; cbn [bind] in R; try discriminate.
+  destruct (clear_spec _ _ Ec) as [W [C1 [C2 [L _]]]].
+  unfold exit_then_restart.
+  destruct (clear_loop_dead_shape (length (wps s)) [] (wps s) s eq_refl eq_refl) as [s2 [E [W2 [T2 [D1 D2]]]]].
+  cbn [length] in E. rewrite E. cbn [bind].
+  unfold new_process, refresh in *. cbn [set_last_seen threads wps last_seen wp_counter bp_counter comps] in *.
+  rewrite W, L, C1, C2 in R. rewrite W2, D1, D2. cbn [app].
+  apply (refresh_loop_irrel (globals (wps s)) [(t, hw_zero)] [] (globals (wps s)) (map unreg (globals (wps s)))).
+  - reflexivity.
+  - apply map_length.
+  - exact R.
+Qed.
+
+(* ------------------------------------------------------------------ *)
+(* every registry entry holds a register: kept by all commands          *)
+Lemma in_drop_nth {A} (l : list A) i x : In x (firstn i l ++ skipn (S i) l) -> In x l.
+Proof.
+  intros H. apply in_app_or in H. destruct H as [H|H].
+  - rewrite <- (firstn_skipn i l). apply in_or_app; left; exact H.
+  - rewrite <- (firstn_skipn (S i) l). apply in_or_app; right; exact H.
+Qed.
+
+Lemma hw_enable_wps s a sz c s1 h r : hw_enable s a sz c = Ok (s1, h, r) -> wps s1 = wps s.
+Proof. intros H. apply hw_enable_sync in H. subst s1. reflexivity. Qed.
+
+Lemma armed_add_addr s a sz c s' : all_armed s -> add_addr s a sz c = Ok s' -> all_armed s'.
+Proof.
+  intros A. unfold add_addr. destruct (already_observed s a); [discriminate|].
+  destruct (hw_enable s a sz c) as [[[s1 h] r]| | |] eqn:He; cbn [bind]; try discriminate.
+  intros H; injection H as <-. pose proof (hw_enable_wps _ _ _ _ _ _ _ He) as E.
+  intros w Hw. cbn [wps with_wps] in Hw. rewrite E in Hw. apply in_app_or in Hw.
+  destruct Hw as [Hw|[<-|[]]]; [apply A, Hw | discriminate].
+Qed.
+
+Lemma armed_add_expr s a sz c e s' : all_armed s -> add_expr s a sz c e = Ok s' -> all_armed s'.
+Proof.
+  intros A. unfold add_expr. destruct (already_observed s a); [discriminate|].
+  destruct (add_expr_prepare_shape s e) as [bc [cs Hshape]].
+  destruct (add_expr_prepare s e) as [s0 companion]. cbn in Hshape.
+  destruct (hw_enable s0 a sz c) as [[[s1 h] r]| | |] eqn:He; try discriminate.
+  intros H; injection H as <-. pose proof (hw_enable_wps _ _ _ _ _ _ _ He) as E.
+  intros w Hw. cbn [wps with_wps] in Hw. rewrite E, Hshape in Hw. cbn [wps] in Hw. apply in_app_or in Hw.
+  destruct Hw as [Hw|[<-|[]]]; [apply A, Hw | discriminate].
+Qed.
+
+Lemma armed_remove_at s i s' : all_armed s -> remove_at s i = Ok s' -> all_armed s'.
+Proof.
+  intros A H. destruct (remove_at_wps _ _ _ H) as [E _]. intros w Hw. rewrite E in Hw.
+  apply A. eapply in_drop_nth; exact Hw.
+Qed.
+
+Lemma armed_remove_by_num s n s' : all_armed s -> remove_by_num s n = Ok s' -> all_armed s'.
+Proof.
+  intros A. unfold remove_by_num. destruct (position _ (wps s)) as [i|].
+  - apply armed_remove_at, A.
+  - intros H; injection H as <-. exact A.
+Qed.
+
+Lemma armed_wstep s o : all_armed s -> all_armed (fst (wstep s o)).
+Proof.
+  intros A. destruct o; cbn [wstep].
+  - destruct (add_addr s addr size cond) eqn:E; cbn [fst]; try exact A. eapply armed_add_addr; eassumption.
+  - destruct (add_expr s addr size cond scope_end) eqn:E; cbn [fst].
+    + eapply armed_add_expr; eassumption.
+    + destruct (add_expr_error_frame s addr size cond scope_end) as [_ [H2 _]]. unfold all_armed. rewrite H2. exact A.
+    + destruct (add_expr_error_frame s addr size cond scope_end) as [_ [H2 _]]. unfold all_armed. rewrite H2. exact A.
+    + destruct (add_expr_error_frame s addr size cond scope_end) as [_ [H2 _]]. unfold all_armed. rewrite H2. exact A.
+  - destruct (remove_by_num s n) eqn:E; cbn [fst]; try exact A. eapply armed_remove_by_num; eassumption.
+  - unfold remove_by_addr. destruct (position _ (wps s)) as [i|]; [|exact A].
+    destruct (remove_at s i) eqn:E; cbn [fst]; try exact A. eapply armed_remove_at; eassumption.
+  - exact A.
+  - unfold exit_thread. destruct (threads s); exact A.
+Qed.
+
+Lemma armed_remove_all_nums nums : forall s s', all_armed s -> remove_all_nums nums s = Ok s' -> all_armed s'.
+Proof.
+  induction nums as [|n t IH]; intros s s' A; cbn [remove_all_nums].
+  - intros H; injection H as <-. exact A.
+  - destruct (remove_by_num s n) as [s1| | |] eqn:E; cbn [bind]; try discriminate.
+    apply IH. eapply armed_remove_by_num; eassumption.
+Qed.
+
+Lemma Forall2_rearmed_armed l l' : Forall2 rearmed l l' -> forall w, In w l' -> w_reg w <> None.
+Proof.
+  induction 1 as [|x y l l' R F IH]; intros w Hw; [contradiction|].
+  destruct Hw as [<-|Hw]; [|auto]. destruct R as [_ [_ [_ [_ [_ [r Hr]]]]]]. congruence.
+Qed.
+
+(* ------------------------------------------------------------------ *)
+(* the invariant over the extended machine                             *)
+Definition valid_opx (o : wopx) : Prop := match o with XBase o => valid_op o | _ => True end.
+
+Definition InvX (s : st) : Prop := Inv s /\ all_armed s.
+
+Lemma invx_init m : InvX (st_init m).
+Proof. split; [apply inv_init | intros w []]. Qed.
+
+Lemma invx_restart_result s r : InvX s -> (exists t, r = restart s t) -> InvX (fst (fin_restart s r)).
+Proof.
+  intros [I A] [t ->]. destruct (restart_total s t I A) as [s' R]. rewrite R. cbn [fin_restart fst].
+  destruct (restart_spec _ _ _ _ I R) as [_ [I' [_ [_ [_ [_ [F _]]]]]]].
+  split; [exact I' | exact (Forall2_rearmed_armed _ _ F)].
+Qed.
+
+Lemma invx_wstepx s o : InvX s -> valid_opx o -> InvX (fst (wstepx s o)).
+Proof.
+  intros [I A] V. destruct o as [o|b tid|t|t]; cbn [wstepx valid_opx] in *.
+  - split; [apply inv_wstep; assumption | apply armed_wstep, A].
+  - destruct (companion_nums s b) as [nums|]; [|split; assumption].
+    destruct (scope_end s nums) as [s'| | |] eqn:E; cbn [fst]; try (split; assumption).
+    split; [eapply inv_scope_end; eassumption|].
+    unfold scope_end in E. destruct (negb _); [discriminate|]. eapply armed_remove_all_nums; eassumption.
+  - apply invx_restart_result; [split; assumption | eexists; reflexivity].
+  - rewrite exit_then_restart_eq by assumption.
+    apply invx_restart_result; [split; assumption | eexists; reflexivity].
+Qed.
+
+Theorem invx_wrunx ops : forall s, InvX s -> Forall valid_opx ops -> InvX (wrunx ops s).
+Proof.
+  induction ops as [|o t IH]; intros s I V; [exact I|].
+  inversion V; subst. cbn [wrunx fold_left]. apply IH; [apply invx_wstepx; assumption | assumption].
+Qed.
+
+(* 1. the headline invariant over all sequences of the eight kinds of events *)
+Theorem every_thread_decodes_to_active_set_x ops m t h r :
+  Forall valid_opx ops -> In (t, h) (threads (wrunx ops (st_init m))) -> valid_r r ->
+  arch_slot (h_regs h) (h_dr7 h) r = active_hwbp (wrunx ops (st_init m)) r.
+Proof.
+  intros V Hin Hr. destruct (invx_wrunx ops _ (invx_init m) V) as [I _].
+  destruct (i_thr _ I t h Hin) as [[Hl [Hg Hle]] Hsame].
+  rewrite (arch_slot_view (h_regs h) (h_dr6 h)) by auto. rewrite <- hw_eta.
+  unfold active_hwbp. rewrite Hsame by exact Hr. rewrite (i_act _ I r Hr). reflexivity.
+Qed.
+
+Theorem at_most_four_x ops m :
+  Forall valid_opx ops ->
+  (length (wps (wrunx ops (st_init m))) <= 4)%nat /\ NoDup (regs_of (wps (wrunx ops (st_init m)))) /\
+  forall w, In w (wps (wrunx ops (st_init m))) -> exists r, w_reg w = Some r /\ valid_r r.
+Proof.
+  intros V. destruct (invx_wrunx ops _ (invx_init m) V) as [I A]. split; [|split].
+  - rewrite <- (regs_of_length_all _ A). apply wps_le4, I.
+  - apply (i_uniq _ I).
+  - intros w Hw. destruct (w_reg w) as [r|] eqn:E; [|destruct (A w Hw E)].
+    exists r. split; [reflexivity|]. pose proof (i_wps _ I) as F. rewrite Forall_forall in F.
+    destruct (F w Hw) as [_ [_ H]]. rewrite E in H. exact H.
+Qed.
+
+(* a thread that appears after any history decodes to the active set as well *)
+Theorem late_thread_inherits_x ops m tid r :
+  Forall valid_opx ops -> valid_r r ->
+  let s := wrunx (ops ++ [XBase (WNewThread tid)]) (st_init m) in
+  forall h, In (tid, h) (threads s) -> arch_slot (h_regs h) (h_dr7 h) r = active_hwbp s r.
+Proof.
+  intros V Hr s h Hin. apply (every_thread_decodes_to_active_set_x _ m tid h r); [|exact Hin|exact Hr].
+  apply Forall_app. split; [exact V|]. constructor; [exact I|constructor].
+Qed.
+
+(* ------------------------------------------------------------------ *)
+(* 3. restart: what is kept, what is dropped, what the new process holds *)
+Lemma arch_of_view h r : hw_ok h -> valid_r r ->
+  arch_slot (h_regs h) (h_dr7 h) r = option_map hwbp_of (slot_view h r).
+Proof.
+  intros [Hl [Hg Hle]] Hr. rewrite (arch_slot_view (h_regs h) (h_dr6 h)) by auto. rewrite <- hw_eta. reflexivity.
+Qed.
+
+Lemma Forall2_in_l {A B} (R : A -> B -> Prop) l l' x :
+  Forall2 R l l' -> In x l -> exists y, In y l' /\ R x y.
+Proof.
+  induction 1 as [|a b l l' H F IH]; [contradiction|]. intros [<-|Hin].
+  - exists b. split; [left; reflexivity | exact H].
+  - destruct (IH Hin) as [y [Hy Ry]]. exists y. split; [right; exact Hy | exact Ry].
+Qed.
+Lemma Forall2_in_r {A B} (R : A -> B -> Prop) l l' y :
+  Forall2 R l l' -> In y l' -> exists x, In x l /\ R x y.
+Proof.
+  induction 1 as [|a b l l' H F IH]; [contradiction|]. intros [<-|Hin].
+  - exists a. split; [left; reflexivity | exact H].
+  - destruct (IH Hin) as [x [Hx Rx]]. exists x. split; [right; exact Hx | exact Rx].
+Qed.
+
+(* what a thread of state s holds for registry entry w *)
+Definition armed_in_all (s : st) (w : wp) : Prop :=
+  exists r, w_reg w = Some r /\ valid_r r /\
+    forall t h, In (t, h) (threads s) ->
+      arch_slot (h_regs h) (h_dr7 h) r = Some (hwbp_of (w_addr w, w_cond w, w_size w)).
+Definition free_in_all (s : st) (r : N) : Prop :=
+  forall t h, In (t, h) (threads s) -> arch_slot (h_regs h) (h_dr7 h) r = None.
+
+Lemma armed_in_all_of_inv s w : Inv s -> In w (wps s) -> w_reg w <> None -> armed_in_all s w.
+Proof.
+  intros I Hin Hr. destruct (w_reg w) as [r|] eqn:E; [|congruence]. exists r. split; [exact E|].
+  assert (Hv : valid_r r).
+  { pose proof (i_wps _ I) as F. rewrite Forall_forall in F. destruct (F w Hin) as [_ [_ H]]. rewrite E in H. exact H. }
+  split; [exact Hv|]. intros t h Ht. destruct (armed_of_inv s w r t h I Hin E Ht) as [_ Hs].
+  rewrite arch_of_view by (try apply (i_thr _ I t h Ht); exact Hv). rewrite Hs. reflexivity.
+Qed.
+
+Lemma free_in_all_of_inv s r : Inv s -> valid_r r -> ~ In r (regs_of (wps s)) -> free_in_all s r.
+Proof.
+  intros I Hv Hn t h Ht. rewrite arch_of_view by (try apply (i_thr _ I t h Ht); exact Hv).
+  rewrite (free_of_inv s r t h I Hv Hn Ht). reflexivity.
+Qed.
+
+Definition restart_post (s s' : st) (t : N) : Prop :=
+  map fst (threads s') = [t] /\ comps s' = [] /\ wp_counter s' = wp_counter s /\ bp_counter s' = bp_counter s /\
+  (* exactly the non-scoped watchpoints, in their order, with number, address, size, condition *)
+  Forall2 rearmed (globals (wps s)) (wps s') /\
+  (* each of them armed in every thread of the new process *)
+  (forall w', In w' (wps s') -> w_companion w' = None /\ armed_in_all s' w') /\
+  (* and nothing else is enabled there *)
+  (forall r, valid_r r -> ~ In r (regs_of (wps s')) -> free_in_all s' r) /\
+  (globals (wps s) = [] -> last_seen s' = None).
+
+Lemma restart_post_of s t s' : Inv s -> restart s t = Ok (s', []) -> restart_post s s' t.
+Proof.
+  intros I R. destruct (restart_spec _ _ _ _ I R) as [_ [I' [T [C1 [C2 [C3 [F [L _]]]]]]]].
+  split; [exact T|]. split; [exact C3|]. split; [exact C1|]. split; [exact C2|]. split; [exact F|].
+  split; [|split; [|exact L]].
+  - intros w' Hw'. destruct (Forall2_in_r _ _ _ _ F Hw') as [w [Hw Rw]].
+    apply globals_in in Hw. destruct Hw as [_ Hs]. destruct Rw as [_ [_ [_ [_ [Hc [r Hr]]]]]]. split.
+    + rewrite Hc. unfold scoped in Hs. destruct (w_companion w); [discriminate | reflexivity].
+    + apply armed_in_all_of_inv; [exact I' | exact Hw' | congruence].
+  - intros r Hv Hn. apply free_in_all_of_inv; assumption.
+Qed.
+
+Theorem global_survives_restart ops m t :
+  Forall valid_opx ops ->
+  let s := wrunx ops (st_init m) in
+  (snd (wstepx s (XRestart t)) = 0 /\ restart_post s (fst (wstepx s (XRestart t))) t) /\
+  (snd (wstepx s (XExitRestart t)) = 0 /\ restart_post s (fst (wstepx s (XExitRestart t))) t).
+Proof.
+  intros V s. destruct (invx_wrunx ops _ (invx_init m) V) as [I A]. fold s in I, A.
+  destruct (restart_total s t I A) as [s' R].
+  cbn [wstepx]. rewrite (exit_then_restart_eq s t I A), R. cbn [fin_restart fst snd].
+  pose proof (restart_post_of s t s' I R). auto.
+Qed.
+
+(* user-level reading: a non-scoped watchpoint is found again with the same number, address,
+   size and condition, armed in every thread; a scoped one has no successor *)
+Corollary global_kept ops m t w :
+  Forall valid_opx ops -> let s := wrunx ops (st_init m) in
+  In w (wps s) -> w_companion w = None ->
+  exists w', In w' (wps (fst (wstepx s (XRestart t)))) /\ rearmed w w' /\
+             armed_in_all (fst (wstepx s (XRestart t))) w'.
+Proof.
+  intros V s Hin Hc. destruct (global_survives_restart ops m t V) as [[_ P] _]. fold s in P.
+  destruct P as [_ [_ [_ [_ [F [Ar _]]]]]].
+  assert (Hg : In w (globals (wps s))) by (apply globals_in; split; [exact Hin | unfold scoped; rewrite Hc; reflexivity]).
+  destruct (Forall2_in_l _ _ _ _ F Hg) as [w' [Hw' R]]. exists w'. split; [exact Hw'|]. split; [exact R|].
+  apply Ar, Hw'.
+Qed.
+
+(* ------------------------------------------------------------------ *)
+(* 2. end of scope                                                     *)
+Definition in_nums (nums : list N) (w : wp) : bool := existsb (N.eqb (w_num w)) nums.
+
+Lemma filter_all {A} (p : A -> bool) l : (forall x, In x l -> p x = true) -> filter p l = l.
+Proof.
+  induction l as [|y t IH]; intros H; [reflexivity|]. cbn. rewrite (H y (or_introl eq_refl)).
+  f_equal. apply IH. intros x Hx; apply H; right; exact Hx.
+Qed.
+Lemma filter_filter {A} (p q : A -> bool) l : filter p (filter q l) = filter (fun a => q a && p a) l.
+Proof.
+  induction l as [|y t IH]; [reflexivity|]. cbn. destruct (q y); cbn; [destruct (p y); rewrite IH; reflexivity | exact IH].
+Qed.
+Lemma find_filter_neg {A} (p : A -> bool) l : find p (filter (fun a => negb (p a)) l) = None.
+Proof.
+  induction l as [|y t IH]; [reflexivity|]. cbn. destruct (p y) eqn:E; cbn; [exact IH | rewrite E; exact IH].
+Qed.
+
+Lemma nodup_num_inj l w1 w2 :
+  NoDup (map w_num l) -> In w1 l -> In w2 l -> w_num w1 = w_num w2 -> w1 = w2.
+Proof.
+  induction l as [|y t IH]; [contradiction|]. cbn [map]. intros Hn H1 H2 E. inversion Hn; subst.
+  destruct H1 as [<-|H1], H2 as [<-|H2]; auto.
+  - exfalso. apply H3. rewrite E. apply in_map, H2.
+  - exfalso. apply H3. rewrite <- E. apply in_map, H1.
+Qed.
+
+Lemma nodup_map_filter {A B} (f : A -> B) (p : A -> bool) l : NoDup (map f l) -> NoDup (map f (filter p l)).
+Proof.
+  induction l as [|y t IH]; [auto|]. cbn. intros Hn. inversion Hn; subst. destruct (p y); cbn; [|auto].
+  constructor; [|auto]. intros H. apply H1. apply in_map_iff in H. destruct H as [x [E Hx]].
+  apply filter_In in Hx. rewrite <- E. apply in_map. tauto.
+Qed.
+
+Lemma position_filter l x i :
+  NoDup (map w_num l) -> position (fun w => w_num w =? x) l = Some i ->
+  firstn i l ++ skipn (S i) l = filter (fun w => negb (w_num w =? x)) l /\
+  exists w, nth_error l i = Some w /\ w_num w = x.
+Proof.
+  revert i; induction l as [|y t IH]; intros i Hn; [discriminate|]. cbn [position map] in *.
+  inversion Hn; subst. destruct (N.eqb_spec (w_num y) x) as [E|E].
+  - intros H; injection H as <-. cbn. destruct (N.eqb_spec (w_num y) x); [|contradiction]. cbn. split.
+    + symmetry. apply filter_all. intros z Hz. apply negb_true_iff, N.eqb_neq. intros Ez.
+      apply H1. rewrite E, <- Ez. apply in_map, Hz.
+    + exists y. auto.
+  - destruct (position _ t) as [i'|] eqn:Ep; [|discriminate]. intros H; injection H as <-.
+    destruct (IH i' H2 eq_refl) as [F [w [Hw Ew]]]. cbn. destruct (N.eqb_spec (w_num y) x); [contradiction|]. cbn.
+    split; [f_equal; exact F | exists w; auto].
+Qed.
+
+Lemma position_some l x : (exists w, In w l /\ w_num w = x) -> exists i, position (fun w => w_num w =? x) l = Some i.
+Proof.
+  induction l as [|y t IH]; intros [w [Hin E]]; [contradiction|]. cbn [position].
+  destruct (N.eqb_spec (w_num y) x); [eexists; reflexivity|].
+  destruct Hin as [->|Hin]; [contradiction|]. destruct IH as [i ->]; [eauto|]. eexists; reflexivity.
+Qed.
+
+Lemma remove_at_total s i w : nth_error (wps s) i = Some w -> w_reg w <> None -> exists s', remove_at s i = Ok s'.
+Proof.
+  intros En Hr. unfold remove_at. rewrite En. unfold hw_disable. destruct (w_reg w); [|congruence].
+  cbn [bind]. eexists; reflexivity.
+Qed.
+
+Lemma remove_at_comps s i s' w :
+  remove_at s i = Ok s' -> nth_error (wps s) i = Some w ->
+  comps s' = match w_companion w with Some b => comps (decrease_rc s b (w_num w)) | None => comps s end
+  /\ map fst (threads s') = map fst (threads s).
+Proof.
+  unfold remove_at. intros H En. rewrite En in H. unfold hw_disable in H.
+  destruct (w_reg w) as [r|]; cbn [bind] in H; [|discriminate].
+  destruct (w_companion w) as [b|]; injection H as <-.
+  - split.
+    + unfold decrease_rc. cbn [comps sync_all with_wps].
+      destruct (find (fun c => comp_num c =? b) (comps s)) as [[[a n] nums]|]; reflexivity.
+    + match goal with |- context [decrease_rc ?x ?y ?z] => destruct (decrease_rc_frame x y z) as [E1 _] end.
+      cbn [threads with_wps]. rewrite E1. cbn [threads sync_all with_wps]. rewrite map_map. reflexivity.
+  - split; [reflexivity|]. cbn [threads sync_all with_wps]. rewrite map_map. reflexivity.
+Qed.
+
+Lemma filter_drop_head x rest : ~ In x rest -> filter (fun z => negb (z =? x)) (x :: rest) = rest.
+Proof.
+  intros Hn. cbn [filter]. rewrite N.eqb_refl. cbn [negb]. apply filter_all.
+  intros z Hz. apply negb_true_iff, N.eqb_neq. intros ->. contradiction.
+Qed.
+
+Lemma decrease_rc_head s b a x rest :
+  ~ In x rest -> find (fun c => comp_num c =? b) (comps s) = Some (a, b, x :: rest) ->
+  comps (decrease_rc s b x) =
+    match rest with
+    | [] => filter (fun c => negb (comp_num c =? b)) (comps s)
+    | _ => (a, b, rest) :: filter (fun c => negb (comp_num c =? b)) (comps s)
+    end.
+Proof.
+  intros Hn Hf. unfold decrease_rc. rewrite Hf. destruct rest as [|y r]; cbn [comps].
+  - rewrite N.eqb_refl. reflexivity.
+  - rewrite (filter_drop_head x (y :: r) Hn). reflexivity.
+Qed.
+
+Lemma scope_loop b a : forall nums s,
+  NoDup nums -> nums <> [] -> NoDup (map w_num (wps s)) -> all_armed s ->
+  find (fun c => comp_num c =? b) (comps s) = Some (a, b, nums) ->
+  (forall x, In x nums -> exists w, In w (wps s) /\ w_num w = x /\ w_companion w = Some b) ->
+  exists s', remove_all_nums nums s = Ok s' /\
+    wps s' = filter (fun w => negb (in_nums nums w)) (wps s) /\
+    comps s' = filter (fun c => negb (comp_num c =? b)) (comps s) /\
+    map fst (threads s') = map fst (threads s) /\ wp_counter s' = wp_counter s /\ bp_counter s' = bp_counter s.
+Proof.
+  induction nums as [|x rest IH]; intros s Hnd Hne Hnum A Hf Hlink; [congruence|].
+  inversion Hnd as [|? ? Hx Hnd']; subst.
+  destruct (Hlink x (or_introl eq_refl)) as [w [Hin [Ew Hc]]].
+  destruct (position_some (wps s) x) as [i Hp]; [eauto|].
+  destruct (position_filter _ _ _ Hnum Hp) as [Hfil [w0 [En E0]]].
+  assert (w0 = w) by (eapply nodup_num_inj; [exact Hnum | eapply nth_error_In; exact En | exact Hin | congruence]). subst w0.
+  destruct (remove_at_total s i w En (A w Hin)) as [s1 R1].
+  destruct (remove_at_wps _ _ _ R1) as [W1 [C1 C2]]. rewrite Hfil in W1.
+  destruct (remove_at_comps _ _ _ _ R1 En) as [K1 T1]. rewrite Hc, Ew, (decrease_rc_head s b a x rest Hx Hf) in K1.
+  cbn [remove_all_nums]. unfold remove_by_num. rewrite Hp, R1. cbn [bind].
+  assert (Hext : forall l, filter (fun w1 => negb (w_num w1 =? x) && negb (in_nums rest w1)) l
+                           = filter (fun w1 => negb (in_nums (x :: rest) w1)) l).
+  { intros l. apply filter_ext. intros w1. unfold in_nums. cbn [existsb]. rewrite negb_orb. reflexivity. }
+  destruct rest as [|y r].
+  - cbn [remove_all_nums]. exists s1. split; [reflexivity|]. split.
+    + rewrite W1. apply filter_ext. intros w1. unfold in_nums. cbn [existsb]. rewrite orb_false_r. reflexivity.
+    + split; [exact K1|]. auto.
+  - destruct (IH s1) as [s' [R [W [K [T [D1 D2]]]]]].
+    + exact Hnd'.
+    + discriminate.
+    + rewrite W1. apply nodup_map_filter, Hnum.
+    + eapply armed_remove_at; eassumption.
+    + rewrite K1. cbn [find]. unfold comp_num at 1. cbn [fst snd]. rewrite N.eqb_refl. reflexivity.
+    + intros z Hz. destruct (Hlink z (or_intror Hz)) as [wz [Hinz [Ez Hcz]]]. exists wz.
+      split; [|auto]. rewrite W1. apply filter_In. split; [exact Hinz|].
+      apply negb_true_iff, N.eqb_neq. rewrite Ez. intros ->. contradiction.
+    + exists s'. split; [exact R|]. split; [rewrite W, W1, filter_filter; apply Hext|].
+      split; [|split; [congruence | split; congruence]].
+      rewrite K, K1. cbn [filter]. unfold comp_num at 1. cbn [fst snd]. rewrite N.eqb_refl. cbn [negb].
+      rewrite filter_filter. apply filter_ext. intros c. apply andb_diag.
+Qed.
+
+(* the companion b and the registry agree: its list is exactly the numbers of the
+   watchpoints bound to it (proved below to be decidable on a concrete state) *)
+Definition scope_linked (s : st) (b : N) : Prop :=
+  NoDup (map w_num (wps s)) /\
+  exists a nums, find (fun c => comp_num c =? b) (comps s) = Some (a, b, nums) /\ NoDup nums /\ nums <> [] /\
+    forall x, In x nums <-> exists w, In w (wps s) /\ w_num w = x /\ w_companion w = Some b.
+
+Fixpoint nodupb (l : list N) : bool :=
+  match l with [] => true | x :: t => negb (existsb (N.eqb x) t) && nodupb t end.
+Lemma nodupb_sound l : nodupb l = true -> NoDup l.
+Proof.
+  induction l as [|x t IH]; [constructor|]. cbn. intros H. apply andb_prop in H. destruct H as [H1 H2].
+  constructor; [|auto]. intros Hin. apply negb_true_iff in H1.
+  assert (existsb (N.eqb x) t = true) by (apply existsb_exists; exists x; split; [exact Hin | apply N.eqb_refl]). congruence.
+Qed.
+
+Definition scope_linked_b (s : st) (b : N) : bool :=
+  nodupb (map w_num (wps s)) &&
+  match find (fun c => comp_num c =? b) (comps s) with
+  | Some (_, _, nums) =>
+      nodupb nums && negb (Nat.eqb (length nums) 0) &&
+      forallb (fun x => existsb (fun w => (w_num w =? x) && bound_to b w) (wps s)) nums &&
+      forallb (fun w => negb (bound_to b w) || in_nums nums w) (wps s)
+  | None => false
+  end.
+
+Lemma bound_to_spec b w : bound_to b w = true <-> w_companion w = Some b.
+Proof.
+  unfold bound_to. destruct (w_companion w) as [b'|]; [|split; discriminate].
+  rewrite N.eqb_eq. split; [intros ->; reflexivity | intros H; injection H as ->; reflexivity].
+Qed.
+
+Lemma scope_linked_b_sound s b : scope_linked_b s b = true -> scope_linked s b.
+Proof.
+  unfold scope_linked_b. intros H. apply andb_prop in H. destruct H as [H0 H].
+  destruct (find (fun c => comp_num c =? b) (comps s)) as [[[a n] nums]|] eqn:Ef; [|discriminate].
+  apply andb_prop in H. destruct H as [H H4]. apply andb_prop in H. destruct H as [H H3].
+  apply andb_prop in H. destruct H as [H1 H2].
+  split; [apply nodupb_sound, H0|]. exists a, nums.
+  assert (n = b). { apply find_some in Ef. destruct Ef as [_ E]. apply N.eqb_eq in E. exact E. } subst n.
+  split; [reflexivity|]. split; [apply nodupb_sound, H1|]. split.
+  - destruct nums; [discriminate | discriminate].
+  - intros x. split.
+    + intros Hx. rewrite forallb_forall in H3. specialize (H3 x Hx). apply existsb_exists in H3.
+      destruct H3 as [w [Hw Hb]]. apply andb_prop in Hb. destruct Hb as [E Hb]. apply N.eqb_eq in E.
+      exists w. split; [exact Hw|]. split; [exact E | apply bound_to_spec, Hb].
+    + intros [w [Hw [E Hc]]]. rewrite forallb_forall in H4. specialize (H4 w Hw).
+      apply bound_to_spec in Hc. rewrite Hc in H4. cbn in H4. unfold in_nums in H4. apply existsb_exists in H4.
+      destruct H4 as [y [Hy Ey]]. apply N.eqb_eq in Ey. congruence.
+Qed.
+
+Definition scope_end_post (s s' : st) (b : N) : Prop :=
+  (* exactly the watchpoints bound to b are gone, every other entry is untouched (register included) *)
+  wps s' = filter (fun w => negb (bound_to b w)) (wps s) /\
+  (* the companion breakpoint is gone, the others are untouched *)
+  comps s' = filter (fun c => negb (comp_num c =? b)) (comps s) /\ companion_nums s' b = None /\
+  map fst (threads s') = map fst (threads s) /\ wp_counter s' = wp_counter s /\
+  (* the slots of the removed ones are free in every thread, the others still armed *)
+  (forall w r, In w (wps s) -> bound_to b w = true -> w_reg w = Some r -> free_in_all s' r) /\
+  (forall w, In w (wps s') -> armed_in_all s' w).
+
+Theorem local_removed_at_scope_end_partial s b tid :
+  InvX s -> scope_linked s b ->
+  snd (wstepx s (XScopeEnd b tid)) = 0 /\ scope_end_post s (fst (wstepx s (XScopeEnd b tid))) b /\
+  InvX (fst (wstepx s (XScopeEnd b tid))).
+Proof.
+  intros [I A] [Hnum [a [nums [Hf [Hnd [Hne Hlink]]]]]].
+  pose proof (invx_wstepx s (XScopeEnd b tid) (conj I A) Logic.I) as IX.
+  cbn [wstepx] in *. unfold companion_nums in *. rewrite Hf in *.
+  destruct (scope_loop b a nums s Hnd Hne Hnum A Hf (fun x Hx => proj1 (Hlink x) Hx))
+    as [s' [R [W [K [T [D1 D2]]]]]].
+  assert (Hchk : length (filter_map (get_wp s) nums) = length nums).
+  { clear - Hlink. assert (H : forall x, In x nums -> get_wp s x <> None).
+    { intros x Hx. destruct (proj1 (Hlink x) Hx) as [w [Hw [E _]]]. unfold get_wp.
+      destruct (find (fun w0 => w_num w0 =? x) (wps s)) eqn:Ef; [discriminate|].
+      pose proof (find_none _ _ Ef w Hw) as Hn. cbv beta in Hn. rewrite E, N.eqb_refl in Hn. discriminate. }
+    induction nums as [|x t IH]; [reflexivity|]. cbn [filter_map].
+    destruct (get_wp s x) eqn:E; [|destruct (H x (or_introl eq_refl) E)].
+    cbn [length]. f_equal. apply IH. intros y Hy; apply H; right; exact Hy. }
+  unfold scope_end in *. rewrite Hchk, Nat.eqb_refl in *. cbn [negb] in *. rewrite R in *. cbn [fst snd] in *.
+  split; [reflexivity|]. split; [|exact IX]. destruct IX as [I' A'].
+  assert (W' : wps s' = filter (fun w => negb (bound_to b w)) (wps s)).
+  { rewrite W. apply filter_ext_in. intros w Hw. f_equal. apply eq_true_iff_eq.
+    rewrite bound_to_spec. unfold in_nums. rewrite existsb_exists. split.
+    - intros [y [Hy Ey]]. apply N.eqb_eq in Ey. destruct (proj1 (Hlink y) Hy) as [w2 [Hw2 [E2 Hc2]]].
+      assert (w2 = w) by (eapply nodup_num_inj; [exact Hnum | exact Hw2 | exact Hw | congruence]). congruence.
+    - intros Hc. exists (w_num w). split; [apply (Hlink (w_num w)); eauto | apply N.eqb_refl]. }
+  split; [exact W'|]. split; [exact K|]. split; [rewrite K; apply find_filter_neg|].
+  split; [exact T|]. split; [exact D1|]. split.
+  - intros w r Hw Hb Hr. apply free_in_all_of_inv; [exact I'| |].
+    + pose proof (i_wps _ I) as F. rewrite Forall_forall in F. destruct (F w Hw) as [_ [_ H]]. rewrite Hr in H. exact H.
+    + rewrite W'. intros Hin. unfold regs_of in Hin. apply in_filter_map_reg in Hin.
+      destruct Hin as [w2 [Hw2 Hr2]]. apply filter_In in Hw2. destruct Hw2 as [Hw2 Hnb].
+      pose proof (find_has_reg_in _ w r (i_uniq _ I) Hw Hr) as F1.
+      pose proof (find_has_reg_in _ w2 r (i_uniq _ I) Hw2 Hr2) as F2.
+      assert (w2 = w) by congruence. subst w2. rewrite Hb in Hnb. discriminate.
+  - intros w Hw. apply armed_in_all_of_inv; [exact I' | exact Hw | apply A', Hw].
 Qed.
